@@ -1,0 +1,38 @@
+//go:build verif
+
+// Copyright 2023 StreamNative, Inc.
+//
+// Licensed under the Apache License, Version 2.0 (the "License");
+// you may not use this file except in compliance with the License.
+// You may obtain a copy of the License at
+//
+//     http://www.apache.org/licenses/LICENSE-2.0
+//
+// Unless required by applicable law or agreed to in writing, software
+// distributed under the License is distributed on an "AS IS" BASIS,
+// WITHOUT WARRANTIES OR CONDITIONS OF ANY KIND, either express or implied.
+// See the License for the specific language governing permissions and
+// limitations under the License.
+
+package kv
+
+import "sync"
+
+// Yield hooks of the verification harness, keyed by the database they were registered for.
+var verifYieldHooks sync.Map
+
+// SetVerifYieldHook registers (or, with a nil function, removes) the hook called at the named yield
+// points reached on behalf of the given database.
+func SetVerifYieldHook(subject DB, f func(point string)) {
+	if f == nil {
+		verifYieldHooks.Delete(subject)
+		return
+	}
+	verifYieldHooks.Store(subject, f)
+}
+
+func verifYield(point string, subject any) {
+	if f, ok := verifYieldHooks.Load(subject); ok {
+		f.(func(string))(point)
+	}
+}
